@@ -21,7 +21,7 @@ an empty prefix the rendering is the text itself (`render_empty_prefix`).
 -/
 namespace Goyang.Props.C20
 open Goyang.Model.Indent
-open Goyang.Spec.Indent (tagged render callerBytesIn atStartAfter)
+open Goyang.Spec.Indent (tagged render callerBytesIn atStartAfter nestedRender)
 open Goyang.Lemmas.Indent (join_write render_append atStartAfter_append callerBytesIn_le
   callerBytesIn_min render_getLast? tagged_append countP_tagged write_none_eq write_some_eq)
 
@@ -127,6 +127,38 @@ example : writes [62, 62] false ([[97], [], [98, 10, 10], [99, 10, 100]].map (·
     (indent [62, 62] [97, 98, 10, 10, 99, 10, 100], [(1, false), (0, false), (3, false), (3, false)]) := by decide
 example : indent [62, 62] [97, 98, 10, 10, 99, 10, 100] =
     [62, 62, 97, 98, 10, 62, 62, 10, 62, 62, 99, 10, 62, 62, 100] := by decide
+
+/-! ### stacked writers -/
+
+/-- Indenting writers compose: with `outer = NewWriter(inner, p2)` over `inner = NewWriter(sink, p1)`
+and successful Write calls addressed to either of them in any interleaving and from any pair of
+line states, the sink receives the two-level rendering of the specification, and every call returns
+the length of its own argument (not of what was handed further down). -/
+theorem nested_spec (p1 p2 : Bytes) (pin pout : Bool) (ops : List (Bool × Bytes)) :
+    nestedWrites p1 p2 pin pout ops =
+      (nestedRender p1 p2 (!pin) (!pout) ops, ops.map (fun o => (o.2.length : Int))) := by
+  induction ops generalizing pin pout with
+  | nil => simp [nestedWrites, nestedRender]
+  | cons o os ih =>
+    obtain ⟨b, buf⟩ := o
+    cases b <;> simp [nestedWrites, nestedRender, write_none_eq, ih]
+
+/-- Text written only through the outer of two fresh stacked writers comes out as the one-shot
+rendering with the inner prefix of the one-shot rendering with the outer prefix. -/
+theorem nested_outer_only (p1 p2 : Bytes) (chunks : List Bytes) :
+    (nestedWrites p1 p2 false false (chunks.map (true, ·))).1 =
+      render p1 true (render p2 true chunks.flatten) := by
+  rw [nested_spec]
+  suffices h : ∀ (a b : Bool), nestedRender p1 p2 a b (chunks.map (true, ·)) =
+      render p1 a (render p2 b chunks.flatten) from h true true
+  induction chunks with
+  | nil => intro a b; simp [nestedRender, Lemmas.Indent.render_nil]
+  | cons c cs ih =>
+    intro a b
+    simp only [List.map_cons, nestedRender, ih, List.flatten_cons, render_append]
+
+example : nestedWrites [62] [32, 32] false false [(true, [97]), (false, [10]), (true, [98])] =
+    ([62, 32, 32, 97, 10, 62, 98], [1, 1, 1]) := by decide
 
 /-! ### a Write that the underlying writer cuts short -/
 
